@@ -61,6 +61,17 @@ def scenario(period_s, t0, bodies):
         h2 = d2._notifier
     if h2 in fake.live:
         return "leaving the with-block did not release the notifier"
+    try:
+        with pd.NotifierDelay(period_s) as d3:       # leaving the with-block through an exception releases it as well
+            h3 = d3._notifier
+            raise KeyError("body failed")
+    except KeyError:
+        pass
+    if h3 in fake.live:
+        return "leaving the with-block through an exception did not release the notifier"
+    n1 = fake.now; d3.wait()
+    if fake.now != n1:
+        return "wait() after an exceptional exit of the with-block blocked instead of returning immediately"
     return None
 
 rec = json.load(open(sys.argv[1])) if len(sys.argv) > 1 else {}
